@@ -201,7 +201,15 @@ QBld == <<
   BldDecl(64, <<AsSeq({63, 62, 40, 39, 5, 4, 0})>>, << ArrFld("uarb", 4, 0, 0, 10, <<>>, "rw"), Scalar("unat", 16, 48, "r") >>, <<>>),
   BldDecl(32, <<>>, << ArrFld("bool", 1, 0, 0, 20, <<>>, "rw"), Scalar("uarb", 12, 20, "rw") >>, <<>>),
   BldDecl(128, <<AsSeq(0..127)>>, << ArrFld("uarb", 4, 0, 0, 24, <<>>, "rw"), ArrFld("bool", 1, 0, 96, 17, <<>>, "rw"), ArrFld("uarb", 1, 0, 113, 9, <<>>, "w") >>, <<>>),
-  BldDecl(100, <<>>, << ArrFld("uarb", 5, 0, 0, 20, <<>>, "rw") >>, <<>>)
+  BldDecl(100, <<>>, << ArrFld("uarb", 5, 0, 0, 20, <<>>, "rw") >>, <<>>),
+  (* arrays with HOLES that touch bit 0 and the top bit, other fields (declared before and after) living in the holes;
+     arrays whose last element fits although count * stride exceeds the base width *)
+  BldDecl(16, <<AsSeq({13, 9, 4})>>, << Scalar("uarb", 4, 2, "rw"), ArrFld("uarb", 2, 0, 0, 3, <<7>>, "rw"), Scalar("uarb", 3, 9, "w"), Scalar("bool", 1, 13, "r") >>, <<>>),
+  BldDecl(24, <<>>, << Scalar("uarb", 5, 8, "rw"), ArrFld("inat", 8, 0, 0, 2, <<16>>, "rw"), Scalar("uarb", 3, 13, "rw") >>, <<>>),
+  BldDecl(32, <<AsSeq({31, 22, 21, 10, 9, 8})>>, << ArrFld("unat", 8, 0, 0, 3, <<12>>, "rw"), Scalar("uarb", 4, 8, "r") >>, <<>>),
+  BldDecl(20, <<AsSeq({19, 6})>>, << ArrFld("enum", 2, 1, 0, 3, <<9>>, "rw"), Scalar("uarb", 3, 3, "rw") >>, <<EnumExh("E2", 2)>>),
+  BldDecl(64, <<>>, << Scalar("unat", 8, 16, "rw"), ArrFld("inat", 16, 0, 0, 3, <<24>>, "rw"), Scalar("unat", 8, 40, "rw") >>, <<>>),
+  BldDecl(16, <<AsSeq({15, 5})>>, << Scalar("bool", 1, 5, "w"), LA(<< <<0, 0>>, <<3, 3>> >>, 3, 6) >>, <<>>)
   >>
 
 ---------------------------------------------------------------------------
@@ -230,6 +238,9 @@ QDbg == <<
           <<>>, << [name |-> "Inner", n |-> 64] >>),
   DbgDecl(16, << N(Scalar("inat", 16, 0, "rw"), "s16"), N(Fld("f", "optenum", 16, 1, << <<0, 15>> >>, FALSE, <<>>, <<>>, "rw"), "o16") >>,
           <<EnumNonExh("O16", 16)>>, <<>>),
+  (* twenty fields: more than any chunking of the field list *)
+  DbgDecl(32, [k \in 1..20 |-> N(IF k % 5 = 0 THEN Scalar("bool", 1, k - 1, "rw") ELSE IF k % 7 = 0 THEN Scalar("inat", 8, k, "r")
+                                  ELSE Scalar("uarb", (k % 3) + 2, k - 1, "rw"), Name("f", k - 1))], <<>>, <<>>),
   DbgDecl(9, << N(Scalar("uarb", 9, 0, "rw"), "all"), N(Scalar("bool", 1, 8, "rw"), "t"),
                 N(Fld("f", "optenum", 1, 1, << <<0, 0>> >>, FALSE, <<>>, <<>>, "rw"), "o1") >>, <<EnumNonExh("O1", 1)>>, <<>>)
   >>
@@ -294,6 +305,14 @@ QB14 == <<
   (* an array whose ELEMENT's range list overlaps itself although the elements are far apart *)
   B14(32, ZeroDef, << N(ListFld("unat", << <<0, 3>>, <<2, 5>> >>, <<4>>, <<8>>, "rw"), "a") >>),
   B14(32, ZeroDef, << N(ListFld("uarb", << <<0, 1>>, <<3, 3>> >>, <<4>>, <<8>>, "rw"), "a") >>),
+  (* bool arrays: their steps must advance the type state like any other field *)
+  B14(8, ZeroDef, << N(ArrFld("bool", 1, 0, 0, 4, <<>>, "rw"), "flags"), N(Scalar("uarb", 4, 4, "rw"), "hi") >>),
+  B14(8, <<>>, << N(ArrFld("bool", 1, 0, 0, 4, <<>>, "rw"), "flags"), N(Scalar("uarb", 4, 4, "rw"), "hi") >>),
+  B14(7, <<>>, << N(Scalar("uarb", 3, 0, "rw"), "lo"), N(ArrFld("bool", 1, 0, 3, 4, <<>>, "rw"), "flags") >>),
+  B14(8, ZeroDef, << N(ArrFld("bool", 1, 0, 0, 4, <<>>, "rw"), "flags"), N(Scalar("uarb", 4, 2, "rw"), "mid") >>),
+  (* a field that cannot be written does not matter for soundness, even if ITS OWN ranges overlap *)
+  B14(8, <<>>, << N(Scalar("uarb", 4, 0, "rw"), "a"), N(Scalar("uarb", 4, 4, "rw"), "b"), N(ListFld("unat", << <<0, 3>>, <<2, 5>> >>, <<>>, <<>>, "r"), "view") >>),
+  B14(7, ZeroDef, << N(Scalar("bool", 1, 6, "w"), "t"), N(ListFld("uarb", << <<0, 0>>, <<2, 2>> >>, <<3>>, <<1>>, "none"), "view") >>),
   (* full-width single field *)
   B14(128, ZeroDef, << N(Scalar("unat", 128, 0, "rw"), "all") >>),
   B14(64, ZeroDef, << N(Scalar("unat", 64, 0, "rw"), "all") >>),
